@@ -422,6 +422,107 @@ pub fn gen_sloc(r: &mut Rng, dup_attrs: bool, dup_variants: bool) -> SLoc {
         let n = if r.chance(1, 16) { 5 + r.below(10) } else { 1 + r.below(4) };
         l.x = Some((0..n).map(|_| gen_private(r)).collect());
     }
+    // Relations between different parts of one identifier (1 in 6): the same subtag text in two places where it is
+    // well-formed in both - the id repeated as tlang, the id's script / region in the tlang, a variant / attribute /
+    // type / tvalue repeated as a private tag, a keyword type repeated as attribute or tfield value, a variant shared by
+    // id and tlang, two keys with the same value list. Independent draws from the pools produce these only by accident;
+    // code that de-duplicates, interns, sorts or compares across containers shows itself only on them.
+    if r.chance(1, 6) {
+        let words_3_8: Vec<String> = {
+            let mut w: Vec<String> = l.id.variants.clone();
+            if let Some((a, k)) = &l.u {
+                w.extend(a.iter().cloned());
+                w.extend(k.iter().flat_map(|(_, v)| v.iter().cloned()));
+            }
+            if let Some((tl, f)) = &l.t {
+                if let Some(tl) = tl {
+                    w.extend(tl.variants.iter().cloned());
+                }
+                w.extend(f.iter().flat_map(|(_, v)| v.iter().cloned()));
+            }
+            w.retain(|x| (3..=8).contains(&x.len()) && x.bytes().all(|c| c.is_ascii_alphanumeric()));
+            w
+        };
+        match r.below(8) {
+            0 => {
+                let id = l.id.clone();
+                match &mut l.t {
+                    Some((tl, _)) => *tl = Some(id),
+                    None => l.t = Some((Some(id), vec![])),
+                }
+            }
+            1 => {
+                let (sc, rg) = (l.id.script.clone(), l.id.region.clone());
+                if let Some((Some(tl), _)) = &mut l.t {
+                    tl.script = sc;
+                    tl.region = rg;
+                }
+            }
+            2 => {
+                if !words_3_8.is_empty() {
+                    let w = r.pick(&words_3_8).clone();
+                    match &mut l.x {
+                        Some(x) => x.push(w),
+                        None => l.x = Some(vec![w]),
+                    }
+                }
+            }
+            3 => {
+                if let Some((attrs, kws)) = &mut l.u {
+                    let types: Vec<String> = kws.iter().flat_map(|(_, v)| v.iter().cloned()).collect();
+                    if !types.is_empty() {
+                        let w = r.pick(&types).clone();
+                        if dup_attrs || !attrs.iter().any(|x| x.eq_ignore_ascii_case(&w)) {
+                            attrs.push(w);
+                        }
+                    }
+                }
+            }
+            4 => {
+                if !words_3_8.is_empty() {
+                    let w = r.pick(&words_3_8).clone();
+                    if let Some((_, fs)) = &mut l.t {
+                        if let Some((_, vals)) = fs.first_mut() {
+                            vals.push(w);
+                        }
+                    }
+                }
+            }
+            5 => {
+                if !words_3_8.is_empty() {
+                    let w = r.pick(&words_3_8).clone();
+                    if let Some((_, kws)) = &mut l.u {
+                        if let Some((_, vals)) = kws.last_mut() {
+                            vals.insert(0, w);
+                        }
+                    }
+                }
+            }
+            6 => {
+                if let Some(v) = l.id.variants.first().cloned() {
+                    if let Some((Some(tl), _)) = &mut l.t {
+                        if dup_variants || !tl.variants.iter().any(|x| x.eq_ignore_ascii_case(&v)) {
+                            tl.variants.push(v);
+                        }
+                    }
+                }
+            }
+            _ => {
+                if let Some((_, kws)) = &mut l.u {
+                    if kws.len() >= 2 {
+                        let v0 = kws[0].1.clone();
+                        kws[1].1 = v0;
+                    }
+                }
+                if let Some((_, fs)) = &mut l.t {
+                    if fs.len() >= 2 {
+                        let v0 = fs[0].1.clone();
+                        fs[1].1 = v0;
+                    }
+                }
+            }
+        }
+    }
     l
 }
 
